@@ -42,6 +42,11 @@ CHECKS = {
             "Generated arrays of every NumPy numeric dtype with boundary-pool magnitudes, Unicode/byte strings, metadata, comments, blobs and value maps are written through the API; acceptance and the three read-backs are compared with an independent codec. Exploration fits: the input space is unbounded, the boundary pool targets the narrow regions.",
             "Under-specified classes (bool->float, |int|>2^53->float, NaN->bool, NUL in strings, empty blob) are counted, not judged; byte strings compared by decoded content.",
             "DESIGN.md 3/C08"),
+    "C07": ("geomdata", "exploration",
+            "model-based PBT with provenance tags per vertex/cell (reference model in plain Python), failure-consistency clause, ddmin shrinking",
+            "Generated point/curve/surface geometries (unreferenced vertices, repeated and unordered cells by construction) with data of every kind, then sequences of add/assign (short, exact, long), remove_vertices/remove_cells (unsorted, repeated, first/last/all-but-one), masked copies and re-opens; after every step every data array must have one entry per element, each survivor keeps the value of its provenance tag, cells stay in range and join the same coordinates; a raising operation must leave a state equal to the pre- or post-state.",
+            "Index lists are reduced modulo the element count (out-of-range indices are a documented refusal, not generated); at least one vertex is always kept.",
+            "DESIGN.md 3/C07"),
 }
 
 NOT_APPLICABLE = {}
@@ -86,6 +91,8 @@ def main():
         "engines": [
             {"name": "tree", "path": "vp/engines/tree.py", "serves_properties": ["C01", "C02", "C05", "C06", "C09", "C12"],
              "kind_free_text": "Hypothesis strategy for operation programs + interpreter with reference model over groups/objects/data/property groups"},
+            {"name": "geomdata", "path": "vp/props/c07.py", "serves_properties": ["C07"],
+             "kind_free_text": "geometry + data operation sequences with a tagged reference model"},
             {"name": "values", "path": "vp/engines/values.py", "serves_properties": ["C03", "C08"],
              "kind_free_text": "reflective pair discovery, value domains, reference codec for data values"},
         ],
